@@ -153,3 +153,7 @@ package types
 //@ func GetBox   trusted
 //@   modifies nothing
 //@   ensures result1 == nil ==> result0 != nil
+
+// merkle root over the transaction ids (common/merkle, C17): a function of the ordered list of transaction objects
+//@ func (Transactions).MerkleRootSha   pure trusted
+//@   opt reads=[]*Transaction
